@@ -25,7 +25,7 @@ Definition hclo_ok (a : Z) (tn : ident) (cls : list clause) (cenv : ctx) : Prop 
       placed im pcc (cl ++ cb) /\
       lin_check (sigs_of p) (cl_ctx c ++ cenv) (cl_body c) = true /\ ann_check (cl_ctx c ++ cenv) (cl_body c) = true /\
       stmt_k (cl_body c) = true /\
-      (* the address of entry k is an address of the image: the offset added by add_and_jump does not wrap *)
+      (* the address the (repaired) add_and_jump computes does not wrap *)
       a + (if Nat.leb (List.length cls) 1 then 0 else jump_length (N.of_nat k)) < 4611686018427387904 - 32 /\
       (* the landing point of the indirect jump: it exists as soon as the clause code contains an instruction of non-zero
          size (always for a table entry); the code of a statement the machine executes does (Proof/RVKSimProg.v) *)
